@@ -139,7 +139,8 @@ Definition scan (ignore : bool) (h last : Z) (s : bytes) : scan_res :=
    first), the head file, and the size of the other directory entries whose name starts with
    the head's name (the .CORRUPTED backup left by OnStart; readGroupInfo counts it).
    In memory: the bufio buffer in front of the head, minIndex (set by OpenGroup only) and
-   maxIndex.  [synced] = length of the prefix of the head known to be on stable storage. *)
+   maxIndex (set by OpenGroup from the directory: highest number + 1, of any number of digits;
+   incremented by RotateFile).  [synced] = length of the prefix of the head known to be on stable storage. *)
 Record st := {
   files : list bytes;
   head : bytes;
@@ -159,6 +160,20 @@ Definition set_disk (s : st) (fs : list bytes) (h : bytes) (sy : Z) (b : bytes) 
 Definition init (hl tl : Z) : st :=
   {| files := []; head := []; synced := 0; buf := []; gmin := 0; gmax := 0; junk := 0;
      head_limit := hl; total_limit := tl |}.
+
+(* A directory that already holds rolled files <head>.<base>, <head>.<base+1>, ... (a node that
+   has been running for a while) and no head file.  File indices are data: the indexed files
+   are numbered gmax - length files .. gmax - 1 whatever their magnitude (filePathForIndex
+   prints at least three digits, readGroupInfo reads three OR MORE), and nothing below assumes
+   that the first file is number 0.  [pre] = the records of each file, oldest file first. *)
+Definition init_at (hl tl base : Z) (pre : list (list bytes)) : st :=
+  {| files := map (fun rs => concat (map frame rs)) pre; head := []; synced := 0; buf := [];
+     gmin := base; gmax := base + Z.of_nat (length pre); junk := 0;
+     head_limit := hl; total_limit := tl |}.
+
+(* the numbers of the indexed files in the directory *)
+Definition disk_indices (s : st) : list Z :=
+  map (fun k => gmax s - Z.of_nat (length (files s)) + Z.of_nat k) (seq 0 (length (files s))).
 
 (* bufio.Writer.Write on top of the head file *)
 Definition buf_write (h b p : bytes) : bytes * bytes :=
